@@ -277,7 +277,9 @@ def _crash_result(signum):
 def _run_chunk(jobs, x64, wdir):
   """Run jobs in ONE worker process; if it dies from SIGSEGV/SIGABRT bisect to find the culprit."""
   try:
-    return core.run_workers(WORKER, jobs, x64=x64, devices=DEVICES, nproc=1, chunk=len(jobs), work=wdir)
+    # the deliberate crash of the binding self-test is not restarted (and so not reported as a restart)
+    return core.run_workers(WORKER, jobs, x64=x64, devices=DEVICES, nproc=1, chunk=len(jobs), work=wdir,
+                            retries=0 if any(j.get("selftest_crash") for j in jobs) else 2)
   except core.MachineryError as e:
     m = re.search(r"rc=(-?\d+)", str(e))
     rc = int(m.group(1)) if m else 0
